@@ -79,7 +79,10 @@ class Layout:
                     out += [('>>> print("a %s",' % m, 'src'), ('...       "b")', 'src'), ('WRONG %s' % m, 'fail')]
                 continue
             r = rng.random()
-            if r < 0.4:
+            if r < 0.12:
+                # a completely empty line inside an open bracket (it is a line of the file like any other)
+                out += [('>>> e%d = [%d,  # %s' % (i, i, self.mark()), 'src'), ('', 'src'), ('...      0]  # %s' % self.mark(), 'src')]
+            elif r < 0.4:
                 out += [('>>> a%d = %d  # %s' % (i, i, self.mark()), 'src')]
             elif r < 0.7:
                 m = self.mark()
@@ -111,7 +114,7 @@ class Layout:
             body_pad = pad + '    '
             if style == 'google_prose' and rng.random() < 0.5:
                 lines += [body_pad + 'prose inside the block %s' % self.mark(), '']
-        lines += [body_pad + t for t, _ in stm]
+        lines += [(body_pad + t) if t else '' for t, _ in stm]
         if rng.random() < 0.4:
             lines += ['', pad + 'Trailing prose.']
         return lines, stm, style
